@@ -327,6 +327,21 @@ func ConstInt(n int64) VM {
 	}
 }
 
+// ConstNum matches an integer or float constant numerically equal to n.
+func ConstNum(n float64) VM {
+	return func(v ssa.Value) bool {
+		c := constOf(v)
+		if c == nil || c.Value == nil {
+			return false
+		}
+		if k := c.Value.Kind(); k != constant.Int && k != constant.Float {
+			return false
+		}
+		f, _ := constant.Float64Val(c.Value)
+		return f == n
+	}
+}
+
 func ConstStr(s string) VM {
 	return func(v ssa.Value) bool {
 		c := constOf(v)
